@@ -55,6 +55,39 @@ Qed.
 Theorem visit_bytes_spec N v : visit_bytes N v = if (length v =? N)%nat then Ok v else Err.
 Proof. unfold visit_bytes. destruct (length v =? N)%nat; reflexivity. Qed.
 
+(* the heap deserialisers return exactly the elements they were given, whatever the size hint *)
+Lemma heap_loop_spec elems : forall pre rest,
+  heap_visit_seq_loop elems (pre ++ rest) (length pre) =
+  ((pre ++ elems) ++ skipn (length elems) rest, (length pre + length elems)%nat).
+Proof.
+  induction elems as [|e r IH]; intros pre rest; cbn [heap_visit_seq_loop length skipn].
+  - now rewrite app_nil_r, Nat.add_0_r.
+  - destruct rest as [|x rest].
+    + rewrite app_nil_r. destruct (Nat.leb_spec (length pre) (length pre)); [|lia].
+      replace (length pre + 1 - length pre)%nat with 1%nat by lia.
+      rewrite (upd_app_zeros pre 0 e). cbn [zeros repeat]. rewrite app_nil_r.
+      replace (S (length pre)) with (length (pre ++ [e])) by (rewrite app_length; cbn [length]; lia).
+      rewrite <- (app_nil_r (pre ++ [e])) at 1. rewrite IH. rewrite app_length. cbn [length].
+      rewrite skipn_nil, <- (app_assoc pre [e] r). cbn [app]. f_equal. lia.
+    + rewrite app_length. cbn [length]. destruct (Nat.leb_spec (length pre + S (length rest)) (length pre)); [lia|].
+      assert (Hu : upd (pre ++ x :: rest) (length pre) e = (pre ++ [e]) ++ rest).
+      { clear. induction pre as [|p pre IHp]; cbn [app length upd]; [reflexivity|]. now rewrite IHp. }
+      rewrite Hu. replace (S (length pre)) with (length (pre ++ [e])) by (rewrite app_length; cbn [length]; lia).
+      rewrite IH. rewrite app_length. cbn [length]. rewrite <- (app_assoc pre [e] r). cbn [app]. f_equal. lia.
+Qed.
+
+Theorem heap_visit_seq_spec hint elems : heap_visit_seq hint elems = Ok elems.
+Proof.
+  unfold heap_visit_seq. pose proof (heap_loop_spec elems [] (zeros hint)) as H. cbn [app length Nat.add] in H.
+  rewrite H. unfold resize. f_equal.
+  rewrite firstn_app, firstn_all, Nat.sub_diag, firstn_O, app_nil_r.
+  rewrite app_length. replace (length elems - (length elems + length (skipn (length elems) (zeros hint))))%nat with 0%nat by lia.
+  cbn [zeros repeat]. now rewrite app_nil_r.
+Qed.
+
+Theorem heap_visit_bytes_spec v : heap_visit_bytes v = Ok v.
+Proof. reflexivity. Qed.
+
 Lemma try_from_ok N s : length s = N -> try_from N s = Ok s.
 Proof. intros H. unfold try_from. now rewrite H, Nat.eqb_refl. Qed.
 
